@@ -1043,16 +1043,15 @@ func (f *Frame) execInstr(in ssa.Instruction) {
 		}
 		f.set(x, Val{T: x.Type(), Cl: x, Fn: x.Fn.(*ssa.Function), Bnd: b, S: c.fresh("closure", "Int")})
 	case *ssa.MakeMap:
-		r := c.fresh("newmap", "Int")
-		f.assumeFresh(r)
-		f.set(x, Val{T: x.Type(), S: r})
-		c.note("map values are opaque references (contents not modelled)")
+		f.set(x, f.execMakeMap(x.Type()))
 	case *ssa.Lookup:
 		f.execLookup(x)
 	case *ssa.MapUpdate:
-		c.note("map update abstracted (map contents not modelled)")
 		m := f.get(x.Map)
 		f.oblige("nil", "mapupdate", fmt.Sprintf("(not (= %s 0))", m.S), x.Pos(), nil, "assignment to entry in nil map")
+		if !f.execMapUpdate(m, f.get(x.Key), f.get(x.Value), x.Pos()) {
+			c.note("map update abstracted (map contents not modelled for this key type)")
+		}
 	case *ssa.Range:
 		f.set(x, Val{T: x.Type(), S: c.fresh("iter", "Int")})
 	case *ssa.Next:
@@ -1371,8 +1370,14 @@ func (f *Frame) strEq(a, b string) string {
 			}
 		}
 	}
+	// content equality is equality of the abstract texts (ax:txt ties it to the bytes);
+	// equalities between txt terms are decided by congruence, not by quantifier matching
+	c.sortOf(textType)
 	c.declStrEq()
-	return fmt.Sprintf("(streq %s %s)", a, b)
+	c.decl("fn:txt", "(declare-fun txt (Str) Txt)")
+	c.decl("ax:txt", "(assert (forall ((a!t Str) (b!t Str)) (! (= (streq a!t b!t) (= (txt a!t) (txt b!t))) :pattern ((txt a!t) (txt b!t)))))")
+	norm := func(s string) string { return fmt.Sprintf("(txt (mkstr (sarr %s) (soff %s) (slen %s) 0))", s, s, s) }
+	return fmt.Sprintf("(= %s %s)", norm(a), norm(b))
 }
 
 func (c *Ctx) declStrEq() {
@@ -1760,6 +1765,10 @@ func (f *Frame) execLookup(x *ssa.Lookup) {
 		f.boundsOblige("strindex", idx, fmt.Sprintf("(slen %s)", base.S), x.Pos(), "string index out of range")
 		t := fmt.Sprintf("(select (sarr %s) %s)", base.S, c.idxAdd(fmt.Sprintf("(soff %s)", base.S), idx))
 		f.set(x, Val{T: x.Type(), S: t})
+		return
+	}
+	if r, ok := f.execMapLookup(base, f.get(x.Index), x.CommaOk, x.Type()); ok {
+		f.set(x, r)
 		return
 	}
 	// map lookup: contents not modelled
